@@ -57,6 +57,8 @@ def normalise_events(spec, events):
             out.append({"kind": "gen", "task": e["name"], "prompt": e.get("text") or "", "idx": idx, "n": e.get("n")})
         elif e["kind"] == "dialog":
             out.append({"kind": "dialog", "name": e["name"], "idx": idx, "faulted": e.get("faulted", False)})
+        elif e["kind"] == "retrieval":
+            out.append({"kind": "retrieval", "name": e["name"], "idx": idx, "faulted": e.get("faulted", False)})
     return out
 
 
